@@ -22,6 +22,7 @@ import Driver.HandshakeAuth
 import Driver.X509Ext
 import Driver.GCMBytes
 import Driver.SessionState
+import Driver.SM2Codec
 open Gmsm
 
 def dispatch (toks : List String) : String :=
@@ -62,6 +63,9 @@ def dispatch (toks : List String) : String :=
     | some r => r
     | none =>
     match Driver.sessionStateDispatch toks with
+    | some r => r
+    | none =>
+    match Driver.sm2CodecDispatch toks with
     | some r => r
     | none =>
     match toks with
